@@ -1113,4 +1113,111 @@ theorem side_accept (files : Files) (hm : MagicFree files) (g : Bool) (d S : Dic
   · rw [hlook "disp"]
     cases hl : Dict.lookup S "disp" <;> simp [getU, hl]
 
+
+theorem rewriteLeaf_list {u : JVal} {items : List JVal} (h : rewriteLeaf u = .list items) : u = .list items := by
+  unfold rewriteLeaf at h
+  by_cases h1 : u = .str "NaN"
+  · simp [h1] at h
+  · by_cases h2 : u = .str "inf"
+    · simp [h2] at h
+    · by_cases h3 : u = .str "-inf"
+      · simp [h3] at h
+      · simpa [h1, h2, h3] using h
+
+/-- the clauses of the documentation's verdict on a section with two dictionary sides -/
+theorem verdict_accept_clauses {files : Files} {kvs L R : Dict}
+    (hL : Dict.lookup kvs "left" = some (.obj L)) (hR : Dict.lookup kvs "right" = some (.obj R))
+    (h : inputVerdict files (some (.obj kvs)) = .accept) :
+    kvs.all (fun kv => kv.1 == "left" || kv.1 == "right") = true ∧
+    (L.all (fun kv => sideKeys.contains kv.1) = true ∧ (imU files L).isSome = true ∧
+      nodataVerdict (getU L "nodata") = .accept ∧ auxVerdict files (imU files L) (getU L "mask") = .accept ∧
+      auxVerdict files (imU files L) (getU L "classif") = .accept ∧
+      auxVerdict files (imU files L) (getU L "segm") = .accept ∧
+      leftDispVerdict files (imU files L) (getU L "disp") = .accept) ∧
+    (R.all (fun kv => sideKeys.contains kv.1) = true ∧ (imU files R).isSome = true ∧
+      nodataVerdict (getU R "nodata") = .accept ∧ auxVerdict files (imU files R) (getU R "mask") = .accept ∧
+      auxVerdict files (imU files R) (getU R "classif") = .accept ∧
+      auxVerdict files (imU files R) (getU R "segm") = .accept ∧
+      rightDispVerdict files (imU files R) (leftIsGridU L) (getU R "disp") = .accept) ∧
+    (match imU files L, imU files R with
+     | some a, some b => ofBool (a.width == b.width && a.height == b.height)
+     | _, _ => .reject) = .accept := by
+  unfold inputVerdict at h
+  rw [inputClauses_sides files kvs L R hL hR, foldl_and_accept] at h
+  have hall := h.2
+  simp only [sideClauses_eq, List.cons_append, List.nil_append, List.mem_cons, List.mem_nil_iff, or_false,
+    forall_eq_or_imp, forall_eq, ofBool_accept] at hall
+  obtain ⟨h0, l1, l2, l3, l4, l5, l6, l7, r1, r2, r3, r4, r5, r6, r7, hs⟩ := hall
+  exact ⟨h0, ⟨l1, l2, l3, l4, l5, l6, by simpa using l7⟩, ⟨r1, r2, r3, r4, r5, r6, by simpa using r7⟩, hs⟩
+
+
+/-- the user's dictionaries are JSON dictionaries: no key twice in `input`, `left`, `right` -/
+def NodupSection (kvs : Dict) : Prop :=
+  (Dict.keys kvs).Nodup ∧ ∀ k S, Dict.lookup kvs k = some (.obj S) → (Dict.keys S).Nodup
+
+/-- **documented ⇒ accepted**: an `input` section the documentation accepts (`inputVerdict = accept`:
+    two sides with only documented keys, readable images of one size, `nodata` an integer or NaN,
+    auxiliary images absent / `None` / readable and of the image's size, `[min, max]` in order with no
+    right disparity or grids of the right shape with min ≤ max) passes `check_input_section`, whatever
+    the merge policy of `update_conf` — provided no file is called `NaN` / `inf` / `-inf`. -/
+theorem accepted_of_documented (files : Files) (hm : MagicFree files) (fl : MachineFlags) (kvs : Dict)
+    (hwf : NodupSection kvs) (h : inputVerdict files (some (.obj kvs)) = .accept) :
+    ∃ out, checkInputSection files fl inputSchemas [("input", .obj kvs)] = .ok out := by
+  obtain ⟨L, R, hL, hR⟩ := verdict_needs_sides files kvs (by rw [h]; simp)
+  obtain ⟨h0, ⟨l1, l2, l3, l4, l5, l6, l7⟩, ⟨r1, r2, r3, r4, r5, r6, r7⟩, hs⟩ := verdict_accept_clauses hL hR h
+  have hdl : ∀ u, Dict.lookup L "disp" = some u → u.isObj = false := by
+    intro u hu
+    cases huo : u.isObj
+    · rfl
+    · cases u <;> simp [JVal.isObj] at huo
+      simp [getU, hu, rewriteLeaf_obj, (verdict_obj_reject files (imU files L) false _).2.2.1] at l7
+  have hdr : ∀ u, Dict.lookup R "disp" = some u → u.isObj = false := by
+    intro u hu
+    cases huo : u.isObj
+    · rfl
+    · cases u <;> simp [JVal.isObj] at huo
+      simp [getU, hu, rewriteLeaf_obj, (verdict_obj_reject files (imU files R) (leftIsGridU L) _).2.2.2] at r7
+  obtain ⟨L', iml, hLm, himl, himl', hLb, hLd⟩ := side_accept files hm fl.strictMerge dL L (Or.inl rfl)
+    (hwf.2 _ _ hL) l1 l2 l3 l4 l5 l6 hdl
+  obtain ⟨R', imr, hRm, himr, himr', hRb, hRd⟩ := side_accept files hm fl.strictMerge dR R (Or.inr rfl)
+    (hwf.2 _ _ hR) r1 r2 r3 r4 r5 r6 hdr
+  rw [himl] at l7
+  rw [himr] at r7
+  rw [himl, himr] at hs
+  simp only [ofBool_accept] at hs
+  -- the disparities
+  have hdisp : dispsOk files iml imr (Dict.lookup L' "disp") (Dict.lookup R' "disp") = true := by
+    rw [hLd, hRd]
+    cases hgl : getU L "disp" with
+    | none => simp [hgl, leftDispVerdict] at l7
+    | some v =>
+      rw [hgl] at l7
+      rcases leftDisp_accept files iml v l7 with ⟨items, rfl, hrange⟩ | ⟨p, rfl, hgrid⟩
+      · -- `[min, max]`: the left disparity is not a grid, the right one must be absent / None
+        have hlu : Dict.lookup L "disp" = some (.list items) := by
+          simp only [getU] at hgl
+          cases hu : Dict.lookup L "disp" with
+          | none => simp [hu] at hgl
+          | some u => simp only [hu, Option.map_some, Option.some.injEq] at hgl; rw [rewriteLeaf_list hgl]
+        have hlg : leftIsGridU L = false := by simp [leftIsGridU, hlu]
+        rw [hlg] at r7
+        cases hgr : getU R "disp" with
+        | none => simpa [dispsOk, dR, Dict.lookup] using hrange
+        | some w =>
+          rw [hgr] at r7
+          cases w <;> simp [rightDispVerdict, ofBool] at r7
+          simpa [dispsOk] using hrange
+      · cases hgr : getU R "disp" with
+        | none => simpa [dispsOk, dR, Dict.lookup] using hgrid
+        | some w =>
+          rw [hgr] at r7
+          cases w <;> simp [rightDispVerdict, ofBool_accept] at r7
+          · simpa [dispsOk] using hgrid
+          · simp [dispsOk, hgrid, r7.2]
+  have hform : formOk files L' R' = true := by
+    simp only [formOk, himl', himr', hLb, hRb, hdisp, hs, Bool.and_self]
+  exact ⟨_, (checkInputSection_ok_iff files fl kvs _ hwf.1).2
+    ⟨L, R, L', R', hL, hR, by simpa [List.all_eq_true] using h0, hLm, hRm, hform, rfl⟩⟩
+
+
 end Pandora.C17W
